@@ -223,7 +223,9 @@ func (c06Engine) Gen(job *Job) *Case {
 	case k < 25:
 		c.Project = genValid(r.Fork())
 	case k < 65:
+		competingOnly = r.Chance(3, 4)
 		c.Project = genMultiDefect(r.Fork())
+		competingOnly = false
 		if r.Chance(1, 4) {
 			c.Project = genSingleDefect(r.Fork())
 		}
@@ -563,7 +565,24 @@ func (c06Engine) Exec(c *Case, job *Job) *Result {
 			keyParts = append(keyParts, fmt.Sprintf("soak%d", rep.Env.Repeat))
 		} else if rep.Env.Conc > 0 {
 			var foreign string
-			text, foreign = observeConc(c, rep.Env, c.Seed+uint64(i+1))
+			// one concurrent repetition is one schedule; a project of several files gets up to four
+			// (what concurrent builds could share is kept per file name or per INCLUDE, and whether it
+			// shows depends on where the builds overlap): the first schedule that differs is reported
+			tries := 1
+			if len(c.Project.Files) >= 3 {
+				tries = 4
+			}
+			for k := 0; k < tries; k++ {
+				e := rep.Env
+				e.ConcSeed += uint64(k) * 0x9e3779b97f4a7c15
+				text, foreign = observeConc(c, e, c.Seed+uint64(i+1)+uint64(k)<<32)
+				if text != ref || foreign != "" {
+					if k > 0 {
+						c.Reps[i].Env.ConcSeed = e.ConcSeed // what the replay has to use
+					}
+					break
+				}
+			}
 			res.count("env:concurrent-with-other-builds", 1)
 			res.NonTrivial = true
 			keyParts = append(keyParts, "conc")
